@@ -22,6 +22,7 @@ mod c18;
 mod compare;
 mod conc;
 mod damage;
+mod filtered;
 mod hist;
 mod cli;
 mod clock;
@@ -71,6 +72,7 @@ fn main() {
             report = Report::new("C12", "pairs (subtree, path) of valid apaths: exhaustive to depth 2, sampled extensions (by component and textual) to depth 4; non-trivial = the subtree is a textual prefix of the path");
             c12::run_pure(&tier, seed, &mut report);
             subtree::run_c12(&tier, seed, &mut report);
+            filtered::run("C12", filtered::Mode::Subtree, &tier, &mut report);
         }
         "C01" => {
             report = Report::new("C01", "generated source trees (names around '/', multi-byte, sizes around the small-file cap and block size, all modes, pre/post-epoch mtimes, owners) x option triples; each backed up into a fresh archive and restored; non-trivial = more than the root entry; distinct by canonical case text");
@@ -141,6 +143,7 @@ fn main() {
             report = Report::new("C15", "(pattern set, apath) pairs: 1-3 exclusion patterns built from anchored/unanchored names, *, ?, ** in every position, classes, escapes, non-ASCII names, plus malformed patterns; apaths to depth 4 over a component alphabet; and (single glob, arbitrary string) pairs; non-trivial = the real code answers true; distinct by canonical text of the case");
             c15::run(&tier, seed, &mut report);
             subtree::run_c15_trees(&tier, seed, &mut report);
+            filtered::run("C15", filtered::Mode::Exclusions, &tier, &mut report);
         }
         "C01B" => {
             report = Report::new("C01B", "source mtimes (ns) put through the real backup+restore (fixed list around the epoch and the second boundary, plus random times inside the file system's range), hand-made (mtime, mtime_nanos) pairs through IndexEntry::mtime(), and rewritten index pairs through restore; all are non-trivial; distinct by canonical text");
@@ -149,6 +152,7 @@ fn main() {
         "C18" => {
             report = Report::new("C18", "generated trees (files, dirs, symlinks, owners, modes, mtimes) backed up by the real code, then mutated by a generated mutation list; one evaluation per (tree, mutation list, include_unchanged) diff, per entry pair (diffmeta) and per second-backup event list; non-trivial = at least one mutation applied; distinct by canonical text of tree+mutations");
             c18::run(&tier, seed, &mut report);
+            filtered::run("C18", filtered::Mode::Diff, &tier, &mut report);
         }
         "BLAKE" => {
             report = Report::new("BLAKE", "BLAKE2b-512 of the Lean model vs blake2-rfc on lengths 0..=300 and block boundaries");
